@@ -809,11 +809,12 @@ pub struct HashMon {
     pub by_hash: HashMap<u64, [u8; 34]>,
     pub log: Vec<u8>,
     pub cap: usize,
+    pub log_cap_bytes: usize,
 }
 
 impl HashMon {
     pub fn new(prop8: bool, prop9: bool, variant: Variant, cap: usize) -> HashMon {
-        HashMon { prop8, prop9, variant, by_pos: HashMap::new(), by_hash: HashMap::new(), log: vec![], cap }
+        HashMon { prop8, prop9, variant, by_pos: HashMap::new(), by_hash: HashMap::new(), log: vec![], cap, log_cap_bytes: 6_000_000 * 50 }
     }
 
     /// record one observed board; `how` says how it was reached
@@ -825,9 +826,14 @@ impl HashMon {
         rep.eval();
         rep.count(&format!("rec_{}", how));
         rep.seen(hash_bytes(&key));
-        self.log.extend_from_slice(&key);
-        self.log.extend_from_slice(&h.to_le_bytes());
-        self.log.extend_from_slice(&sh.to_le_bytes());
+        // the offline log is bounded per worker (50 bytes per record); the online maps keep judging beyond it
+        if self.log.len() < self.log_cap_bytes {
+            self.log.extend_from_slice(&key);
+            self.log.extend_from_slice(&h.to_le_bytes());
+            self.log.extend_from_slice(&sh.to_le_bytes());
+        } else {
+            rep.count("info_log_cap_reached");
+        }
         if self.prop8 {
             match self.by_pos.get(&key) {
                 Some(&(h0, sh0)) => {
